@@ -5,6 +5,7 @@
 //!   hlall <line>             highlight_command at every char-boundary cursor -> `OK <n>`
 //!   completeall <line>       Shell::complete at every char-boundary position -> `OK <n>`
 //!   prompt <PS1>             Shell::compose_prompt      -> `OK <hex>` | `ERR`
+//!   casemap <s>              `OK <hex upper(first char)> <hex lower(first char)>`
 //!   case <s>                 Rust's Unicode tables: `OK <hex s.to_lowercase()> <hex upper(first)>`
 //! Every case runs under catch_unwind (`PANIC <hex msg>`) and a watchdog: a case that exceeds
 //! C01_TIMEOUT_MS prints `TIMEOUT` and the process exits with status 3 (the driver re-feeds the
@@ -108,6 +109,16 @@ fn main_c01(cases: &[Vec<String>]) {
                         .map(|ch| ch.to_uppercase().to_string())
                         .unwrap_or_default();
                     format!("OK {} {}", hex(l.as_bytes()), hex(u.as_bytes()))
+                }
+                "casemap" => {
+                    // Rust's case mapping of the FIRST character, as sequences
+                    let s = arg(c, 1);
+                    let (u, l) = s
+                        .chars()
+                        .next()
+                        .map(|ch| (ch.to_uppercase().to_string(), ch.to_lowercase().to_string()))
+                        .unwrap_or_default();
+                    format!("OK {} {}", hex(u.as_bytes()), hex(l.as_bytes()))
                 }
                 "hlall" | "completeall" | "prompt" => {
                     if shared_shell.is_none() {
